@@ -1088,7 +1088,7 @@ def eval_hist(binp, case):
     specs = [tuple(s) for s in case["specs"]]
     reps = case["reps"]
     log = case.get("log", False)
-    argv = ["hist", "5000", str(reps), "1" if log else "0", spec_str(specs)]
+    argv = ["hist", "1500", str(reps), "1" if log else "0", spec_str(specs)]
     res = run_probe(binp, argv, strace=False, timeout=60)
     rep = parse_report(res["out"])
     v = V()
